@@ -77,9 +77,9 @@ func (p *Provider) handleForward(pkt *dhcp4.Packet, opts *ip.IPv4DHCPOptions) (*
 	raw := make([]byte, len(pkt.Raw))
 	copy(raw, pkt.Raw)
 
-	giaddr := net.ParseIP(opts.GIAddr)
+	giaddr := net.ParseIP(opts.GIAddr).To4()
 	if giaddr == nil {
-		return nil, fmt.Errorf("invalid giaddr: %s", opts.GIAddr)
+		return nil, fmt.Errorf("invalid giaddr (must be an IPv4 address): %s", opts.GIAddr)
 	}
 
 	relay.SetGIAddr(raw, giaddr)
@@ -142,9 +142,9 @@ func (p *Provider) handleRelease(pkt *dhcp4.Packet, opts *ip.IPv4DHCPOptions) (*
 	raw := make([]byte, len(pkt.Raw))
 	copy(raw, pkt.Raw)
 
-	giaddr := net.ParseIP(opts.GIAddr)
+	giaddr := net.ParseIP(opts.GIAddr).To4()
 	if giaddr == nil {
-		return nil, fmt.Errorf("invalid giaddr: %s", opts.GIAddr)
+		return nil, fmt.Errorf("invalid giaddr (must be an IPv4 address): %s", opts.GIAddr)
 	}
 
 	relay.SetGIAddr(raw, giaddr)
